@@ -10,10 +10,10 @@ CONSTANTS
   ImpTarget = "b"
   MaxEnv = 3
   MaxExtract = 2
-  FixedF9 = FALSE
-INVARIANT AtMostOnceX
-INVARIANT ModuleBeatsBuiltinX
-INVARIANT InTime
+  FixedF9 = TRUE
+INVARIANT AtMostOnce
+INVARIANT ModuleBeatsBuiltin
+INVARIANT InTimeF4
 INVARIANT LockDiscipline
 INVARIANT OneInside
 INVARIANT WarnOnly
